@@ -5,18 +5,21 @@ A graph on n variables v0..v(n-1): each variable has a definition kind
    E  explicit equation      v = c + sum(reads)
    S  state                  dv/dt = c + sum(reads), initial value
    N  implicit equation      v + sum(reads) = 2*v - c     (unknown cannot be isolated: one-unknown NLA system)
+   G  the same with an initial guess on v. CellML cannot tell a guess from a constant, so a G that reads other variables has
+      two legitimate readings (v unknown / v constant and the equation defines the other variable): by default G reads nothing;
+      graphs(..., g_reads=True) lifts that (used by C20 with a reading-agnostic oracle: every equation must be satisfied)
 and a read set (other variables, and optionally the variable of integration t when the model has a state).
 Variables are placed in one of two sibling components; a read across components goes through a connected twin.
 Everything the oracles need (roles, model type, values) is computed here from the spec alone."""
 import itertools
 
-KINDS = 'KESN'
+KINDS = 'KESNG'   # G = implicit equation whose unknown carries an initial guess (and is the only initialised variable in it)
 CONST = {0: 1.5, 1: -2.25, 2: 3.75, 3: 0.6}     # per-variable literal c / initial value
 INIT = {0: 0.8, 1: 1.3, 2: -0.7, 3: 2.2}
 VOI = 0.75
 
 
-def graphs(n, max_edges=None):
+def graphs(n, max_edges=None, g_reads=False):
     """All (kinds, reads) with reads[i] a frozenset over {0..n-1}\\{i} ∪ {'t'}; filtered to the judged domain:
     explicit equations acyclic, E reads at least one thing, t only if some state exists."""
     out = []
@@ -28,12 +31,16 @@ def graphs(n, max_edges=None):
             if k == 'K':
                 opts.append([frozenset()])
                 continue
-            base = others(i) + (['t'] if has_state else [])
+            base = others(i) + (['t'] if has_state else []) + ([i] if k == 'S' else [])  # a state may appear in its own rate (dx/dt = c + x)
             subs = []
             for r in range(len(base) + 1):
                 for c in itertools.combinations(base, r):
                     if k == 'E' and not c:
                         continue  # v = literal: role ambiguous (constant vs computed constant), excluded
+                    if k == 'G' and c and not g_reads:
+                        continue  # a guessed unknown next to ANY other variable is ambiguous (constant + equation for the other variable, or unknown)
+                    if k == 'G' and any(j != 't' and kinds[j] in 'KG' for j in c):
+                        continue  # keep the guessed unknown the only initialised variable of its equation
                     subs.append(frozenset(c))
             opts.append(subs)
         for reads in itertools.product(*opts):
@@ -53,7 +60,7 @@ def explicit_acyclic(kinds, reads):
     def dfs(i):
         color[i] = 1
         for j in reads[i]:
-            if j == 't' or kinds[j] in 'KS':
+            if j == 't' or j == i or kinds[j] in 'KS':
                 continue
             if color[j] == 1:
                 return False
@@ -62,7 +69,7 @@ def explicit_acyclic(kinds, reads):
         color[i] = 2
         return True
     for i in range(n):
-        if kinds[i] in 'EN' and color[i] == 0:
+        if kinds[i] in 'ENG' and color[i] == 0:
             if not dfs(i):
                 return False
     return True
@@ -92,7 +99,7 @@ def truth(kinds, reads):
         if i in memo2:
             return memo2[i]
         memo2[i] = False
-        r = kinds[i] == 'N' or (kinds[i] == 'E' and any(j != 't' and via_nla(j) for j in reads[i]))
+        r = kinds[i] in 'NG' or (kinds[i] == 'E' and any(j != 't' and via_nla(j) for j in reads[i]))
         memo2[i] = r
         return r
     roles = []
@@ -109,7 +116,7 @@ def truth(kinds, reads):
             roles.append({'algebraic', 'computed_constant'})
         else:
             roles.append({'computed_constant'})
-    has_s, has_n = 'S' in kinds, 'N' in kinds
+    has_s, has_n = 'S' in kinds, ('N' in kinds or 'G' in kinds)
     mtype = 'dae' if has_s and has_n else 'ode' if has_s else 'nla' if has_n else 'algebraic'
     return roles, mtype
 
@@ -157,11 +164,13 @@ def cn(x):
 class Layout:
     """Where variables live and what they are called, after a transformation."""
 
-    def __init__(self, kinds, reads, place, perm_comp=False, rev_vars=False, rev_eqs=False, rename=0, drop_eq=None, dup_eq=None, drop_init=None, ncomp=None):
+    def __init__(self, kinds, reads, place, perm_comp=False, rev_vars=False, rev_eqs=False, rename=0, drop_eq=None, dup_eq=None, drop_init=None, ncomp=None,
+                 init_on_twin=False, long=None):
         self.kinds, self.reads, self.place = kinds, reads, place
         self.n = len(kinds)
         self.perm_comp, self.rev_vars, self.rev_eqs, self.rename = perm_comp, rev_vars, rev_eqs, rename
         self.drop_eq, self.dup_eq, self.drop_init = drop_eq, dup_eq, drop_init
+        self.init_on_twin, self.long = init_on_twin, long
         self.has_state = 'S' in kinds
         self.comps = sorted(set(place)) if ncomp is None else list(range(ncomp))
         base = ['v%d' % i for i in range(self.n)]
@@ -178,6 +187,12 @@ class Layout:
         self.cname = {c: 'comp%d' % c for c in (0, 1)}
         if rename == 1:
             self.cname = {0: 'zeta', 1: 'alpha'}
+        self.units_of = {}
+        if long is not None:
+            # one class gets a name, a units name and a component name longer than everything else in the model
+            self.home_name[long] = 'a_remarkably_long_variable_name'
+            self.units_of[long] = 'a_remarkably_long_units_name'
+            self.cname[self.comp_of(long)] = 'a_remarkably_long_component_name'
 
     def comp_of(self, i):
         return 0 if i == 't' else self.place[i]
@@ -224,17 +239,26 @@ class Layout:
         twins = self.needed_twins()
         comp_vars = {c: [] for c in (0, 1)}
         comp_eqs = {c: [] for c in (0, 1)}
+        iv_on_twin = {}
+        if self.init_on_twin:   # the initial value is declared on an equivalent variable in the other component
+            for (j, c) in twins:
+                if j != 't' and self.kinds[j] in 'KS' and j not in iv_on_twin:
+                    iv_on_twin[j] = c
+        u = lambda i: self.units_of.get(i, 'dimensionless')
         for i in range(self.n):
             c = self.place[i]
             iv = ''
-            if self.kinds[i] in 'KS' and self.drop_init != i:
+            if self.kinds[i] in 'KS' and self.drop_init != i and i not in iv_on_twin:
                 iv = ' initial_value="%r"' % INIT[i]
-            comp_vars[c].append('<variable name="%s" units="dimensionless" interface="public"%s/>' % (self.home_name[i], iv))
+            if self.kinds[i] == 'G':
+                iv = ' initial_value="0.5"'
+            comp_vars[c].append('<variable name="%s" units="%s" interface="public"%s/>' % (self.home_name[i], u(i), iv))
         used_t = self.has_state
         if used_t:
-            comp_vars[0].append('<variable name="%s" units="dimensionless" interface="public"/>' % self.home_name['t'])
+            comp_vars[0].append('<variable name="%s" units="%s" interface="public"/>' % (self.home_name['t'], u('t')))
         for (j, c) in twins:
-            comp_vars[c].append('<variable name="%s" units="dimensionless" interface="public"/>' % self.name_in(j, c))
+            iv = ' initial_value="%r"' % INIT[j] if iv_on_twin.get(j) == c and self.drop_init != j else ''
+            comp_vars[c].append('<variable name="%s" units="%s" interface="public"%s/>' % (self.name_in(j, c), u(j), iv))
         eq_of = {}
         for i in range(self.n):
             k = self.kinds[i]
@@ -279,7 +303,8 @@ class Layout:
             by_pair.setdefault((a, b), []).append('<map_variables variable_1="%s" variable_2="%s"/>' % (v1, v2))
         for (a, b), maps in sorted(by_pair.items()):
             conns.append('<connection component_1="%s" component_2="%s">%s</connection>' % (self.cname[a], self.cname[b], ''.join(maps)))
-        return '<?xml version="1.0" encoding="UTF-8"?>\n<model %s name="m">%s%s</model>\n' % (NS, ''.join(parts), ''.join(conns))
+        units = ''.join('<units name="%s"><unit units="dimensionless"/></units>' % n for n in sorted(set(self.units_of.values())))
+        return '<?xml version="1.0" encoding="UTF-8"?>\n<model %s name="m">%s%s%s</model>\n' % (NS, units, ''.join(parts), ''.join(conns))
 
     def class_of(self, comp, var):
         """Which graph variable (or 't') a (component name, variable name) of the analysed model denotes."""
